@@ -88,11 +88,13 @@ func (g *hgen) logon(spec LogonSpec) *rig.InMsg {
 	case "min":
 		hb = c.HBMin
 	case "inside":
-		hb = rapid.IntRange(c.HBMin, c.HBMax).Draw(g.t, "hbInside")
+		hb = rapid.IntRange(c.HBMin, min(c.HBMax, c.HBMin+3600)).Draw(g.t, "hbInside")
 	case "max":
-		hb = c.HBMax
+		hb = min(c.HBMax, c.HBMin+3600)
 	case "above":
 		hb = c.HBMax + 1 + rapid.IntRange(0, 100).Draw(g.t, "hbAbove")
+	case "huge":
+		hb = rapid.SampledFrom([]int{9223372037, 9223372040, 10000000000}).Draw(g.t, "hbHuge") // inside limits that allow anything, yet not a length of time
 	case "text":
 		fields = append(fields, rig.F(rig.TagHeartBtInt, rapid.SampledFrom([]string{"x", "3O", "1.5", " 30", "0x1E", "1_0", "0b11", "0o17", "1e1"}).Draw(g.t, "hbText")))
 	}
@@ -116,7 +118,7 @@ func (g *hgen) logon(spec LogonSpec) *rig.InMsg {
 		user, pass = rapid.SampledFrom([]string{"mallory", "alice"}).Draw(g.t, "badUser"), "wrong"
 	}
 	fields = append(fields, rig.F(rig.TagUsername, user), rig.F(rig.TagPassword, pass))
-	if hb > g.maxHB {
+	if hb > g.maxHB && hb <= 100000 {
 		g.maxHB = hb
 	}
 	m := &rig.InMsg{Type: rig.TLogon, Seq: g.seq(), Fields: fields, Note: fmt.Sprintf("logon hb=%s method=%s creds=%s", spec.HB, spec.Method, spec.Creds)}
@@ -134,6 +136,13 @@ func (g *hgen) logon(spec LogonSpec) *rig.InMsg {
 		// a numeric header field that is not a number
 		m.PreSeq = append(m.PreSeq, rig.F("369", rapid.SampledFrom([]string{"abc", "1x"}).Draw(g.t, "badHeaderInt")))
 		m.Note += " bad-header-field"
+	case 6:
+		// the header's repeating group (NoHops) with a non-numeric member inside its entry
+		m.PreSeq = append(m.PreSeq, rig.F("627", "1"), rig.F("628", "HUB"), rig.F("630", rapid.SampledFrom([]string{"abc", "1x"}).Draw(g.t, "badHopRefInLogon")))
+		m.Note += " bad-hop-ref"
+	case 7:
+		// ... or a well-formed one
+		m.PreSeq = append(m.PreSeq, rig.F("627", "1"), rig.F("628", "HUB"), rig.F("630", "3"))
 	case 4, 5:
 		// header fields AHEAD of MsgSeqNum whose tag or value only looks like it
 		m.PreSeq = append(m.PreSeq, rapid.SampledFrom([]rig.Tok{rig.F("5034", "77"), rig.F("115", "DESK/34=9"), rig.F("50", "GW34=9"), rig.F("134", "5")}).Draw(g.t, "seqLookalike"))
@@ -144,7 +153,7 @@ func (g *hgen) logon(spec LogonSpec) *rig.InMsg {
 // goodLogon is an acceptable Logon with the given interval (0 = draw one).
 func (g *hgen) goodLogon(hb int) *rig.InMsg {
 	if hb == 0 {
-		hb = rapid.IntRange(g.cfg.HBMin, g.cfg.HBMax).Draw(g.t, "hbGood")
+		hb = rapid.IntRange(g.cfg.HBMin, min(g.cfg.HBMax, g.cfg.HBMin+3600)).Draw(g.t, "hbGood")
 	}
 	if g.cfg.Role == "initiator" {
 		hb = g.cfg.HBInt
@@ -191,7 +200,7 @@ func LogonVerdict(cfg *rig.Cfg, m *rig.InMsg) (verdict string, badTags []string)
 		return "unparsable", nil
 	}
 	for _, f := range m.PreSeq {
-		if f.Tag == "369" {
+		if f.Tag == "369" || f.Tag == "630" {
 			if _, err := strconv.Atoi(f.Val); err != nil {
 				return "unparsable", nil
 			}
@@ -236,6 +245,11 @@ func LogonVerdict(cfg *rig.Cfg, m *rig.InMsg) (verdict string, badTags []string)
 	}
 	if !rig.Approves(cfg.Approve, user, pass) {
 		return "refused", nil
+	}
+	if n >= 9223372037 {
+		// inside limits that allow anything, approved, yet not a length of time a timer can hold
+		// (its nanoseconds do not fit): refused with the interval named
+		return "field", []string{rig.TagHeartBtInt}
 	}
 	return "ok", nil
 }
